@@ -230,6 +230,42 @@ fn gen_custom_trait_impl(custom_trait: &ast::Trait, custom_trait_struct_name: &I
     )
 }
 
+/// The expression converting `value` (of type `ty`) into `ty.ffi_safe_version()`, or `None` if the
+/// type already is its own FFI-safe version.
+///
+/// Used for the payloads of returned `Result`s and `Option`s, which travel inside a
+/// `#[repr(C)]` `DiplomatResult` and therefore must not be Rust-layout types like `Option<u8>` or `&str`.
+fn ffi_safe_conversion(
+    ty: &ast::TypeName,
+    value: proc_macro2::TokenStream,
+) -> Option<proc_macro2::TokenStream> {
+    if &ty.ffi_safe_version() == ty {
+        return None;
+    }
+    Some(match ty {
+        ast::TypeName::Ordering => quote!((#value as i8)),
+        ast::TypeName::Option(inner, is_std_option) => match **inner {
+            // `DiplomatOption<&T>` → `Option<&T>`
+            ast::TypeName::Reference(..) | ast::TypeName::Box(..) => quote!(#value.into()),
+            _ => {
+                let as_option = if *is_std_option == StdlibOrDiplomat::Stdlib {
+                    value
+                } else {
+                    quote!(#value.into_option())
+                };
+                let inner_ty = inner.ffi_safe_version().to_syn();
+                match ffi_safe_conversion(inner, quote!(v)) {
+                    Some(conv) => {
+                        quote!(diplomat_runtime::DiplomatOption::<#inner_ty>::from(#as_option.map(|v| #conv)))
+                    }
+                    None => quote!(diplomat_runtime::DiplomatOption::<#inner_ty>::from(#as_option)),
+                }
+            }
+        },
+        _ => quote!(#value.into()),
+    })
+}
+
 fn gen_custom_type_method(strct: &ast::CustomType, m: &ast::Method) -> Item {
     let self_ident = Ident::new(strct.name().as_str(), Span::call_site());
     let method_ident = Ident::new(m.name.as_str(), Span::call_site());
@@ -284,13 +320,33 @@ fn gen_custom_type_method(strct: &ast::CustomType, m: &ast::Method) -> Item {
         quote! { #self_ident::#method_ident }
     };
 
+    // A function the returned value is passed through before `maybe_into` is applied
+    let mut ret_wrap: Option<proc_macro2::TokenStream> = None;
     let (return_tokens, maybe_into) = if let Some(return_type) = &m.return_type {
-        if let ast::TypeName::Result(ok, err, StdlibOrDiplomat::Stdlib) = return_type {
-            let ok = ok.to_syn();
-            let err = err.to_syn();
+        if let ast::TypeName::Result(ok, err, is_std_result) = return_type {
+            // The payloads cross the boundary inside the `#[repr(C)]` result, so they have to be
+            // FFI-safe themselves (`Option<u8>` → `DiplomatOption<u8>`, `&str` → `DiplomatUtf8StrSlice`)
+            let mut conversion = quote! {};
+            if let Some(ok_conv) = ffi_safe_conversion(ok, quote!(v)) {
+                conversion.extend(quote! { .map(|v| #ok_conv) });
+            }
+            if let Some(err_conv) = ffi_safe_conversion(err, quote!(v)) {
+                conversion.extend(quote! { .map_err(|v| #err_conv) });
+            }
+            let ok = ok.ffi_safe_version().to_syn();
+            let err = err.ffi_safe_version().to_syn();
+            let conversion = if *is_std_result == StdlibOrDiplomat::Stdlib {
+                quote! { #conversion .into() }
+            } else if conversion.is_empty() {
+                quote! {}
+            } else {
+                // a `DiplomatResult` whose payloads still need converting
+                ret_wrap = Some(quote! { core::result::Result::<_, _>::from });
+                quote! { #conversion .into() }
+            };
             (
                 quote! { -> diplomat_runtime::DiplomatResult<#ok, #err> },
-                quote! { .into() },
+                conversion,
             )
         } else if let ast::TypeName::StrReference(_, _, StdlibOrDiplomat::Stdlib)
         | ast::TypeName::StrSlice(.., StdlibOrDiplomat::Stdlib)
@@ -315,11 +371,16 @@ fn gen_custom_type_method(strct: &ast::CustomType, m: &ast::Method) -> Item {
                 }
                 // anything else goes through DiplomatResult
                 _ => {
-                    let ty = ty.to_syn();
+                    // the payload has to be FFI-safe itself, see the `Result` case above
+                    let inner_conversion = ffi_safe_conversion(ty, quote!(v))
+                        .map(|conv| quote! { .map(|v| #conv) });
+                    let ty = ty.ffi_safe_version().to_syn();
                     let conversion = if *is_std_option == StdlibOrDiplomat::Stdlib {
-                        quote! { .ok_or(()).into() }
-                    } else {
+                        quote! { #inner_conversion .ok_or(()).into() }
+                    } else if inner_conversion.is_none() {
                         quote! {}
+                    } else {
+                        quote! { .into_option() #inner_conversion .ok_or(()).into() }
                     };
                     (
                         quote! { -> diplomat_runtime::DiplomatResult<#ty, ()> },
@@ -345,6 +406,12 @@ fn gen_custom_type_method(strct: &ast::CustomType, m: &ast::Method) -> Item {
         })
         .collect::<Vec<_>>();
 
+    let invocation = quote! { #method_invocation(#(#all_params_names),*) };
+    let (invocation, ret) = match ret_wrap {
+        Some(wrap) => (quote! { #wrap(#invocation) }, quote! { #wrap(ret) }),
+        None => (invocation, quote! { ret }),
+    };
+
     let cfg = cfgs_to_stream(&m.attrs.cfg);
     if write_flushes.is_empty() {
         Item::Fn(syn::parse_quote! {
@@ -352,7 +419,7 @@ fn gen_custom_type_method(strct: &ast::CustomType, m: &ast::Method) -> Item {
             #cfg
             extern "C" fn #extern_ident #lifetimes(#(#all_params),*) #return_tokens {
                 #(#all_params_conversion)*
-                #method_invocation(#(#all_params_names),*) #maybe_into
+                #invocation #maybe_into
             }
         })
     } else {
@@ -363,7 +430,7 @@ fn gen_custom_type_method(strct: &ast::CustomType, m: &ast::Method) -> Item {
                 #(#all_params_conversion)*
                 let ret = #method_invocation(#(#all_params_names),*);
                 #(#write_flushes)*
-                ret #maybe_into
+                #ret #maybe_into
             }
         })
     }
